@@ -19,7 +19,7 @@ DigitCases ==
   \cup {[Blank EXCEPT !.kind = "digit", !.pos = p, !.win = w, !.digit = d, !.chain = c, !.rest = r] : p \in Pos8, w \in Win8, d \in Digits, c \in Chains, r \in {"zero", "rnd"}}
 VecCases ==
   {[Blank EXCEPT !.kind = "vec", !.vec = v, !.n = n, !.cnt = (IF Tier = "quick" THEN 1 ELSE 6)] :
-     v \in {"rnd", "ones", "rminus1", "hot", "first5", "small", "empty"}, n \in {0, 1, 5, 6, 255, 256}}
+     v \in {"rnd", "ones", "rminus1", "hot", "first5", "small", "mont", "empty"}, n \in {0, 1, 5, 6, 255, 256}}
 LinCases == {[Blank EXCEPT !.kind = "lin", !.n = n, !.cnt = i] : n \in {1, 6, 256}, i \in 1 .. (IF Tier = "quick" THEN 2 ELSE 20)}
 (* table rows read through the hook: quick - a few rows; thorough - EVERY row of every 8-bit table (251 points x 32 windows x 128
    entries) and the first 4096 entries of every row of the five 16-bit tables *)
